@@ -418,6 +418,13 @@ func runTokenChannels(o vh.Opts, rng *vh.RNG, rep *vh.Report, tmp string) {
 		layouts = append(layouts, fs)
 	}
 	nMany := 0
+	for _, target := range []int{16383, 16384, 16385, 16386} { // packed size of one token block right at the flush threshold (> 16384)
+		l1 := 8000
+		l2 := target - 12 - l1
+		fs := [][][]byte{sortedToks([][]byte{mk(1, l1), mk(2, l2)}), {[]byte("p"), []byte("q")}, sortedToks([][]byte{mk(3, 16384-12-4000+target-16384), mk(4, 4000)})}
+		layouts = append(layouts, fs)
+		nMany++
+	}
 	for i := 0; i < o.Pick(3, 12); i++ { // many small fields: multi-block token table over shared physical token blocks
 		var fs [][][]byte
 		nf := rng.Range(250, 600)
